@@ -1,10 +1,14 @@
 package rules
 
 import (
+	"fmt"
 	"go/ast"
 	"go/token"
 	"go/types"
 	"strings"
+
+	"verif/checker/internal/dtab"
+	"verif/checker/internal/sym"
 )
 
 // ordEval evaluates a boolean expression over the ordering of two designated
@@ -165,7 +169,7 @@ func sideOf(b ast.Node) string {
 func CheckC17(c *Ctx) {
 	run := c.Run
 	run.Technique = "typed-AST lints with finite decision tables: ordering decisions in generic numeric code must use comparison operators (never the sign of a difference); Insert and search must route every ordering {<,=,>} consistently; every Ring index is reduced modulo the buffer length"
-	run.Explanation = "Conformance of Ring and Bst to the FIFO / multiset models under arbitrary histories is NOT decided. Three structural necessary conditions are: (1) no ordering decision on generic numeric values is taken from the sign of a difference (for integer element types the subtraction overflows: Bst[int8] holding -100 cannot find 100); (2) evaluated on the three orderings of (searched value, node value), Insert and searchNode send smaller keys to the same side, larger keys to the same side and searchNode stops on equality; (3) every index into Ring.buffer is begin/end or reduced modulo len(buffer), and begin/end advance only through nextIndex, whose body is (i+1) % len(buffer)."
+	run.Explanation = "Conformance of Ring and Bst to the FIFO / multiset models under arbitrary histories is NOT decided. Three structural necessary conditions are: (1) no ordering decision on generic numeric values is taken from the sign of a difference (for integer element types the subtraction overflows: Bst[int8] holding -100 cannot find 100); (2) evaluated on the three orderings of (searched value, node value), Insert and searchNode send smaller keys to the same side, larger keys to the same side and searchNode stops on equality; (3) every index into Ring.buffer is begin/end or reduced modulo len(buffer), and begin/end advance only through nextIndex, whose body is (i+1) % len(buffer). Ring state invariant: `empty => begin == end` is established by NewRing and preserved on every path of every Ring method (each method's guarded commands, receiver fields as state); Put writes at end and Get/At read from begin, so an empty ring with different indices returns slots that were never filled."
 	run.Trusted = []string{"go/types", "finite ordering domain {<,=,>} (values are only compared)"}
 	hp := c.P.Pkg("helper")
 	if hp == nil {
@@ -251,6 +255,7 @@ func CheckC17(c *Ctx) {
 	}
 	// (3) Ring index discipline
 	c.ringDiscipline(info)
+	c.ringInvariant()
 }
 
 func (c *Ctx) bstAgreement(info *types.Info, ins, srch *ast.FuncDecl) {
@@ -486,3 +491,117 @@ func (c *Ctx) ringDiscipline(info *types.Info) {
 	run.Floor("ring_index_sites", 4)
 }
 
+// ringInvariant: `empty => begin == end` is established by NewRing and preserved by every method
+// of Ring (decided on the guarded commands of each method). Put writes at end and Get reads at
+// begin, so an empty ring whose indices disagree hands out slots that were never filled.
+func (c *Ctx) ringInvariant() {
+	run := c.Run
+	hp := c.P.Pkg("helper")
+	if hp == nil {
+		return
+	}
+	info := hp.TypesInfo
+	methods := 0
+	for _, fi := range c.P.Decls {
+		if fi.Decl.Recv == nil || recvTypeName(fi) != "Ring" || fi.Pkg.PkgPath != hp.PkgPath || fi.Decl.Body == nil {
+			continue
+		}
+		m := dtab.FromFuncDecl(info, fi.Decl)
+		touches := false
+		for _, s := range m.State {
+			if strings.HasSuffix(s, ".begin") || strings.HasSuffix(s, ".end") || strings.HasSuffix(s, ".empty") {
+				touches = true
+			}
+		}
+		if !touches {
+			continue
+		}
+		methods++
+		site := "helper.(*Ring)." + fi.Fn.Name()
+		if len(m.Unsupported) > 0 {
+			c.violate("ring-invariant", site, "shape", fi.Decl.Pos(), "the method is not loop-free, the ring invariant is undecided (fails closed): "+strings.Join(m.Unsupported, "; "))
+			continue
+		}
+		recv := ""
+		if len(fi.Decl.Recv.List) == 1 && len(fi.Decl.Recv.List[0].Names) == 1 {
+			recv = fi.Decl.Recv.List[0].Names[0].Name
+		}
+		bN, eN, mN := recv+".begin", recv+".end", recv+".empty"
+		for i, p := range m.Paths {
+			post := func(n string) sym.Expr {
+				if u, ok := p.Updates[n]; ok {
+					return u
+				}
+				return sym.V(n)
+			}
+			b2, e2, m2 := post(bN), post(eN), post(mN)
+			ok := true
+			why := ""
+			isConst := func(e sym.Expr, name string) bool { v, isV := e.(sym.Var); return isV && v.Name == name }
+			switch {
+			case isConst(m2, "#false"):
+			case isConst(m2, "#true"):
+				ok = sym.Equal(b2, e2)
+				if !ok {
+					for _, cd := range p.Conds {
+						if cmp, isCmp := cd.(sym.Cmp); isCmp && cmp.Op == "==" {
+							if (sym.Equal(cmp.L, b2) && sym.Equal(cmp.R, e2)) || (sym.Equal(cmp.L, e2) && sym.Equal(cmp.R, b2)) {
+								ok = true
+							}
+						}
+					}
+				}
+				why = fmt.Sprintf("marks the ring empty with begin = %s and end = %s, which are not known to be equal", sym.CanonString(b2), sym.CanonString(e2))
+			default:
+				unchanged := sym.Equal(b2, sym.V(bN)) && sym.Equal(e2, sym.V(eN))
+				notEmpty := false
+				for _, cd := range p.Conds {
+					if l, isL := cd.(sym.Logic); isL && l.Op == "!" && len(l.Args) == 1 && isConst(l.Args[0], mN) {
+						notEmpty = true
+					}
+				}
+				ok = unchanged || notEmpty
+				why = "moves begin/end of a ring that may be empty without keeping them equal"
+			}
+			run.Oblige(ok)
+			if !ok {
+				c.violate("ring-invariant", site, fmt.Sprintf("path %d", i), fi.Decl.Pos(), "a path of "+fi.Fn.Name()+" "+why+": the next Put writes at end while Get/At read from begin")
+			}
+		}
+	}
+	run.Count("ring_state_methods", methods)
+	run.Floor("ring_state_methods", 2)
+	// NewRing: begin == end, empty
+	if nr := c.fn("helper", "", "NewRing"); nr != nil {
+		ok := false
+		ast.Inspect(nr.Decl.Body, func(n ast.Node) bool {
+			cl, isCL := n.(*ast.CompositeLit)
+			if !isCL {
+				return true
+			}
+			vals := map[string]ast.Expr{}
+			for _, el := range cl.Elts {
+				if kv, isKV := el.(*ast.KeyValueExpr); isKV {
+					vals[exprString(kv.Key)] = kv.Value
+				}
+			}
+			b, hasB := vals["begin"]
+			e, hasE := vals["end"]
+			em, hasM := vals["empty"]
+			same := (!hasB && !hasE) || (hasB && hasE && exprString(b) == exprString(e))
+			if !hasB && hasE || hasB && !hasE {
+				if v, isC := constInt(info, map[bool]ast.Expr{true: b, false: e}[hasB]); isC && v == 0 {
+					same = true
+				}
+			}
+			if same && hasM && exprString(em) == "true" {
+				ok = true
+			}
+			return true
+		})
+		run.Oblige(ok)
+		if !ok {
+			c.violate("ring-invariant", "helper.NewRing", "initial state", nr.Decl.Pos(), "a new ring must start empty with begin == end")
+		}
+	}
+}
